@@ -698,6 +698,7 @@ func (d *cborDecDriver[T]) DecodeNaked() {
 
 	n := d.d.naked()
 	var decodeFurther bool
+TOP:
 	switch d.bd >> 5 {
 	case cborMajorUint:
 		if d.h.SignedInteger {
@@ -745,10 +746,13 @@ func (d *cborDecDriver[T]) DecodeNaked() {
 				n.f = d.decTagBigFloatAsFloat(false)
 				n.v = valueTypeFloat
 			case 55799: // skip
-				d.DecodeNaked()
+				// loop (do not recurse): a run of tags must not grow the stack
+				d.readNextBd()
+				goto TOP
 			default:
 				if d.h.SkipUnexpectedTags {
-					d.DecodeNaked()
+					d.readNextBd()
+					goto TOP
 				}
 				// else we will use standard mode to decode ext e.g. into a RawExt
 			}
